@@ -352,6 +352,14 @@ func chainMode(e *core.Env) {
 	}
 	if !bytes.Equal(got, data) {
 		e.Fail("roundtrip", attrs, "chain %v v%s: %d bytes in, %d out, first difference at %d", descs, version, len(data), len(got), firstDiff(data, got))
+		return
+	}
+	// "however the reads are chunked" includes reads of other streams in
+	// between: after this chain was decoded and closed, two Flate streams that
+	// are open at the same time must still decode to their own data (the
+	// decoders share a pool of zlib readers)
+	if err := core.FlateCanary(); err != nil {
+		e.Fail("pool-corrupted", map[string]string{"mode": "chain"}, "chain %v: after DecodeStream+Close two Flate streams open at the same time interfere: %v", descs, err)
 	}
 }
 
